@@ -45,7 +45,9 @@ def real_objects(ROOT, REPO, spec, bdir, hdr_hash):
     cdir = os.path.join(ROOT, 'build', 'objcache')
     os.makedirs(cdir, exist_ok=True)
     for s in srcs:
-        key = _hash_files([s] + (gen if s.endswith(spec.get('wrap') or '\0') else []), hdr_hash + ' '.join(GXX_FLAGS))
+        # file-local roots are globalised in the object, so the harness's root list is part of the key
+        key = _hash_files([s] + (gen if s.endswith(spec.get('wrap') or '\0') else []),
+                          hdr_hash + ' '.join(GXX_FLAGS) + ' '.join(sorted(r_ for r_ in spec.get('roots', []) if 'L' in r_)))
         o = os.path.join(cdir, '%s-%s.o' % (os.path.basename(s).replace('.', '_'), key))
         if not os.path.exists(o):
             tmp = o + '.tmp%d' % os.getpid()
